@@ -367,6 +367,25 @@ pub fn drive(args: &HashMap<String, String>) {
             }
         }
     }
+    // 3d. several independent let / assign names used together in one branch of a conditional, under the dialect whose
+    //     front end evaluates before it generates code (cl22): the evaluator re-binds the names a branch needs around the
+    //     code it compiles apart, and the order it does that in must not come out of a hash table
+    if n_gen > 0 {
+        let names = ["x", "y", "zed", "w1", "Kay", "m_n"];
+        for k in 2..=5usize {
+            let binds: Vec<String> = (0..k).map(|i| format!("({} ({} {} {}))", names[i], ["+", "*", "-"][i % 3], if i % 2 == 0 { "A" } else { "B" }, i + 1)).collect();
+            let used = names[..k].join(" ");
+            for (shape, text) in [
+                ("fun-let", format!("(mod (A B) (include *standard-cl-22*) (defun f (A B) (let ({}) (if A (+ {used}) (- {used})))) (f A B))", binds.join(" "))),
+                ("main-let", format!("(mod (A B) (include *standard-cl-22*) (let ({}) (if A (+ {used}) (- {used}))))", binds.join(" "))),
+                ("fun-assign", format!("(mod (A B) (include *standard-cl-22*) (defun f (A B) (assign {} (if B (list {used}) (+ {used})))) (f A B))",
+                    (0..k).map(|i| format!("{} ({} {} {})", names[i], ["+", "*", "-"][i % 3], if i % 2 == 0 { "A" } else { "B" }, i + 1)).collect::<Vec<_>>().join(" "))),
+                ("inline-let", format!("(mod (A B) (include *standard-cl-22*) (defun-inline g (A B) (let ({}) (if B (* {used}) (+ {used})))) (defun f (P Q) (g P Q)) (f A B))", binds.join(" "))),
+            ] {
+                gen_srcs.push(JobSrc { key: format!("evalorder{k}:{shape}"), text, file: "*verif*".to_string(), search: vec![] });
+            }
+        }
+    }
     for j in &gen_srcs {
         let tie = j.key.starts_with("tie");
         for c0 in [8usize, 98, 998, 99_998].into_iter().chain(if tie { vec![100_000usize, 999_998, 1_000_000_000_000] } else { vec![] }) {
